@@ -70,6 +70,7 @@ class Tree:
         self.units = {}            # moleculetype name -> its text lines
         self.counter = 0
         self.expect_abort = False
+        self.rich = False          # extra stream: moleculetypes with several residues (unit_rich_molecule)
 
     def fresh(self, directory, stem):
         self.counter += 1
@@ -170,6 +171,95 @@ class Tree:
         self.units[name] = list(out)
         return out
 
+    def unit_rich_molecule(self):
+        """a moleculetype with several residues: residue numbering from 1 / with an offset / from 0 / with gaps / NOT
+        monotonic / repeated (di-block 1 2 3 1 2 3), residue names containing each other, the same residue name with
+        different atom names; linear, branched and cyclic residue graphs; inter-residue edges from [ bonds ] or
+        [ constraints ]; the interaction sections in random order"""
+        rng = self.rng
+        name = "MOL%d" % (len(self.molnames) + 1)
+        self.molnames.append(name)
+        nres = rng.randint(2, 6)
+        scheme = rng.choice(["one", "offset", "zero", "gaps", "nonmonotonic", "repeated"])
+        if scheme == "one":
+            resids = list(range(1, nres + 1))
+        elif scheme == "offset":
+            start = rng.choice([7, 28, 99999])
+            resids = list(range(start, start + nres))
+        elif scheme == "zero":
+            resids = list(range(0, nres))
+        elif scheme == "gaps":
+            resids, cur = [], rng.choice([1, 3])
+            for _ in range(nres):
+                resids.append(cur)
+                cur += rng.randint(1, 4)
+        elif scheme == "nonmonotonic":
+            half = nres // 2
+            resids = list(range(half + 1, nres + 1)) + list(range(1, half + 1))
+        else:
+            half = (nres + 1) // 2
+            resids = (list(range(1, half + 1)) * 2)[:nres]
+        pool = rng.choice([["RES"], ["PEO", "PE", "PEOA"], ["A", "B"], ["PS", "PS", "PSS"]])
+        resnames = [rng.choice(pool) for _ in range(nres)]
+        if scheme == "repeated" and rng.random() < 0.6:
+            # the two copies of the numbering carry different residue names (a di-block copolymer)
+            resnames = [pool[0] if i < (nres + 1) // 2 else pool[-1] + "X" for i in range(nres)]
+        out = ["[ moleculetype ]", "%s %d" % (name, rng.randint(1, 3)), "[ atoms ]"]
+        first_atom, atom = [], 0
+        intra = []
+        for res in range(nres):
+            size = rng.randint(1, 3)
+            first_atom.append(atom + 1)
+            names = rng.choice([["BB", "SC1", "SC2"], ["C1", "C2", "C3"], ["BB", "SC1", "SC2"]])
+            for k in range(size):
+                atom += 1
+                out.append("%d %s %d %s %s %d %s 12.011" % (atom, rng.choice(self.atypes), resids[res], resnames[res],
+                                                            names[k], atom, rng.choice(["0.0", "0.5", "-0.25"])))
+                if k:
+                    intra.append((atom - 1, atom))
+        natoms = atom
+        inter = [(first_atom[i], first_atom[i + 1]) for i in range(nres - 1)]
+        if nres > 2 and rng.random() < 0.35:
+            inter.append((first_atom[-1], first_atom[0]))                      # a ring of residues
+        if nres > 3 and rng.random() < 0.35:
+            inter.append((first_atom[0], first_atom[rng.randint(2, nres - 1)]))  # a branch / second ring
+        if nres > 2 and rng.random() < 0.15:
+            inter.pop(rng.randrange(nres - 1))                                 # two fragments
+        bonds, constraints = list(intra), []
+        for pair in inter:
+            (constraints if rng.random() < 0.3 else bonds).append(pair)
+        sections = []
+        if bonds:
+            sections.append(["[ bonds ]"] + ["%d %d 1 %s %s" % (a, b, num(rng), num(rng)) for a, b in bonds])
+        if constraints:
+            sections.append(["[ constraints ]"] + ["%d %d 1 %s" % (a, b, num(rng)) for a, b in constraints])
+        if natoms >= 3 and rng.random() < 0.5:
+            sections.append(["[ angles ]"] + ["%s 1 %s %s" % (" ".join(str(a) for a in rng.sample(range(1, natoms + 1), 3)),
+                                                             num(rng), num(rng)) for _ in range(rng.randint(1, 2))])
+        if rng.random() < 0.3:
+            sections.append(["[ exclusions ]", " ".join(str(a) for a in rng.sample(range(1, natoms + 1), 2))])
+        if rng.random() < 0.3:
+            sections.append(["[ position_restraints ]", "%d 1 %s %s %s" % (rng.randint(1, natoms), num(rng), num(rng), num(rng))])
+        rng.shuffle(sections)
+        for sec in sections:
+            out += sec
+        self.units[name] = list(out)
+        return out
+
+    def deep_chain(self, frm, depth):
+        """a chain of `depth` files, each including the next by a relative path that changes the directory"""
+        rng = self.rng
+        self.counter += 1
+        dirs = ["deep%d" % self.counter, "deep%d/a" % self.counter, "deep%d/a/b" % self.counter, "common"]
+        paths = ["%s/chain%d_%d.itp" % (rng.choice(dirs), self.counter, i) for i in range(depth)]
+        for i, path in enumerate(paths):
+            lines = self.unit_types() if rng.random() < 0.6 else self.define_line()
+            if i + 1 < depth:
+                lines = lines + [self.include_line(path, paths[i + 1])] if rng.random() < 0.5 else \
+                    [self.include_line(path, paths[i + 1])] + lines
+            self.files[path] = lines
+        return [self.include_line(frm, paths[0])]
+
     # ---- files
     def param_file(self, path, depth, simple):
         """a force-field file: no moleculetypes.  `simple` = no #define and no conditionals anywhere below
@@ -269,7 +359,7 @@ class Tree:
         if rng.random() < 0.3:
             lines += self.unit_types()
         for _ in range(rng.randint(1, 2)):
-            lines += self.unit_molecule()
+            lines += self.unit_rich_molecule() if self.rich and rng.random() < 0.7 else self.unit_molecule()
             if depth < 2 and rng.random() < 0.3:
                 child = self.fresh(rng.choice(["mols", "mols/water", "common"]), "mol")
                 self.molecule_file(child, depth + 1)
@@ -279,8 +369,44 @@ class Tree:
         self.files[path] = lines
 
 
-def gen_tree(rng, malformed=None, shape=None):
+DECOY_LINES = ["; a decoy: a file of the same name that no #include of the tree resolves to", "#define DECOY_WAS_READ",
+               "[ atomtypes ]", "DECOY 1.0 0.0 A 0.5 0.5"]
+
+
+def include_paths(lines):
+    """the paths as written on the #include lines of a file"""
+    out = []
+    for line in lines:
+        toks = line.split(";")[0].split()
+        if len(toks) >= 2 and toks[0] == "#include":
+            out.append(toks[1].strip('"'))
+    return out
+
+
+def add_tree_decoys(files, top):
+    """files INSIDE the tree that no include resolves to: for every include path as written in a file of directory D,
+    the same relative path below the root and below the directory of the top file (where a reader that resolves
+    relative to the process working directory / the top file instead of the including file would look)"""
+    topdir = os.path.dirname(top)
+    added = []
+    for path, lines in list(files.items()):
+        for written in include_paths(lines):
+            for base in ("", topdir):
+                cand = os.path.normpath(os.path.join(base, written))
+                if cand.startswith("..") or os.path.isabs(cand) or cand in files:
+                    continue
+                files[cand] = list(DECOY_LINES)
+                added.append(cand)
+    return added
+
+
+def gen_tree(rng, malformed=None, shape=None, opts=None):
+    """`opts` (extra stream only, all choices from the DERIVED rng handed in): rich (several residues per
+    moleculetype), sysinc (the [ molecules ] section lives in an included file), bigcount, deep (include depth),
+    decoys (same-named files inside the tree that no include resolves to)"""
+    opts = opts or {}
     tree = Tree(rng)
+    tree.rich = bool(opts.get("rich"))
     top = rng.choice(["system.top", "system.top", "run/system.top", "run/a/system.top"])
     lines = []
     # force-field part (conditionals live here)
@@ -290,6 +416,8 @@ def gen_tree(rng, malformed=None, shape=None):
     tree.files[ff] = None
     tree.param_file(ff, 1, False)
     lines.append(tree.include_line(top, ff))
+    if opts.get("deep"):
+        lines += tree.deep_chain(top, opts["deep"])
     for _ in range(rng.randint(0, 2)):
         roll = rng.random()
         if roll < 0.4:
@@ -299,9 +427,12 @@ def gen_tree(rng, malformed=None, shape=None):
         else:
             lines += tree.define_line()
     # molecule part (no conditionals outside moleculetypes)
+    inline_top = []
     for _ in range(rng.randint(1, 3)):
         if rng.random() < 0.3:
-            lines += tree.unit_molecule()
+            known = len(tree.molnames)
+            lines += tree.unit_rich_molecule() if tree.rich and rng.random() < 0.7 else tree.unit_molecule()
+            inline_top += tree.molnames[known:]
         else:
             child = tree.fresh(rng.choice(["mols", "mols/lipids", ""]), "mol")
             tree.molecule_file(child, 1)
@@ -310,19 +441,59 @@ def gen_tree(rng, malformed=None, shape=None):
         lines += tree.sibling_molecule_files(top)
     if not tree.molnames:
         lines += tree.unit_molecule()
-    lines += ["[ system ]", "a generated system"]
-    molecules = [[rng.choice(tree.molnames), rng.choice([0, 1, 1, 2, 3])] for _ in range(rng.randint(1, 5))]
-    lines.append("[ molecules ]")
-    for name, count in molecules:
-        lines.append("%s %d" % (name, count))
+        inline_top += tree.molnames[-1:]
+    counts = [0, 1, 2, 3, 7, 21, 25] if opts.get("bigcount") else [0, 1, 1, 2, 3]
+    layout = None
+    if opts.get("sysinc"):
+        # the [ molecules ] section lives in an INCLUDED file.  The real reader expands it when that file ends: every
+        # molecule type it names must have been READ by then, i.e. be defined in a file whose reading has ended (any
+        # included file before this point) or in the file that holds the section — not in the part of the top file
+        # collected so far (that is the known shape `molecules-in-included-file`).
+        layout = rng.choice(["system+molecules", "molecules-only", "own-moleculetype", "own-include"])
+        sysfile = tree.fresh(rng.choice(["", "sub", "mols", "run/sys"]), "system")
+        sys_lines = []
+        if layout == "own-moleculetype":
+            sys_lines += tree.unit_rich_molecule() if rng.random() < 0.7 else tree.unit_molecule(inner_conditionals=False)
+        elif layout == "own-include":
+            child = tree.fresh(rng.choice(["mols", "sub/more"]), "mol")
+            tree.rich = True
+            tree.molecule_file(child, 2)
+            sys_lines.append(tree.include_line(sysfile, child))
+        usable = [name for name in tree.molnames if name not in inline_top]
+        if not usable:
+            child = tree.fresh("mols", "mol")
+            tree.molecule_file(child, 2)
+            lines.append(tree.include_line(top, child))
+            usable = [name for name in tree.molnames if name not in inline_top]
+        molecules = [[rng.choice(usable), rng.choice(counts)] for _ in range(rng.randint(1, 5))]
+        if layout == "molecules-only":
+            lines += ["[ system ]", "a generated system"]
+        else:
+            sys_lines += ["[ system ]", "a generated system"]
+        sys_lines.append("[ molecules ]")
+        sys_lines += ["%s %d" % (name, count) for name, count in molecules]
+        tree.files[sysfile] = sys_lines
+        lines.append(tree.include_line(top, sysfile))
+    else:
+        lines += ["[ system ]", "a generated system"]
+        molecules = [[rng.choice(tree.molnames), rng.choice(counts)] for _ in range(rng.randint(1, 5))]
+        lines.append("[ molecules ]")
+        for name, count in molecules:
+            lines.append("%s %d" % (name, count))
     tree.files[top] = lines
     case = dict(files={p: list(l) for p, l in tree.files.items()}, top=top, molecules=molecules, valid=True,
                 units=tree.units,
                 malformed=malformed, shape=shape, expect_abort=tree.expect_abort, chdir=rng.random() < 0.4)
+    if opts:
+        case["extra"] = dict(opts, layout=layout)
+        if layout:
+            case["molfile"] = sysfile          # the file that holds the [ molecules ] section
     if malformed:
         apply_malformed(rng, case, malformed)
     if shape:
         apply_shape(rng, case, tree, shape)
+    if opts.get("decoys") and not malformed:
+        case["decoys"] = add_tree_decoys(case["files"], top)
     return case
 
 
@@ -350,9 +521,9 @@ def apply_malformed(rng, case, kind):
     elif kind == "bad-header":
         files[top].insert(0, "[ atomtypes")
     elif kind == "unknown-molecule":
-        files[top].append("GHOST 2")
+        files[case.get("molfile", top)].append("GHOST 2")
     elif kind == "bad-count":
-        files[top].append("%s many" % case["molecules"][0][0])
+        files[case.get("molfile", top)].append("%s many" % case["molecules"][0][0])
     elif kind == "buckingham":
         files[top][0:0] = ["[ defaults ]", "2 1"]
     elif kind == "cycle":
@@ -380,10 +551,26 @@ def apply_shape(rng, case, tree, shape):
         files[(d + "/" if d else "") + "more_types.itp"] = ["%s %s 1 0.125 1000.0" % (atype, atype)]
         files[top][idx:idx] = ["[ bondtypes ]", '#include "more_types.itp"']
     elif shape == "molecules-in-included-file":
+        # NARROWED: a [ molecules ] section in an included file is legal and read like the flattened file when it is
+        # the only one and every molecule type it names has been read by the end of that file (generated by the extra
+        # stream, option `sysinc`, WITHOUT a shape tag).  The known shape is only what really fails on the clean tree:
+        import random
         d = os.path.dirname(top)
-        name = case["molecules"][0][0]
-        files[(d + "/" if d else "") + "mols_list.itp"] = ["[ molecules ]", "%s 2" % name]
-        files[top].append('#include "mols_list.itp"')
+        variant = random.Random("c08-shape|" + json.dumps(case["molecules"])).choice(["several-files", "type-after-section"])
+        case["variant"] = variant
+        if variant == "several-files":
+            # (1) several files carry [ molecules ]: the included one is expanded FIRST and every director counts from 0
+            name = case["molecules"][0][0]
+            files[(d + "/" if d else "") + "mols_list.itp"] = ["[ molecules ]", "%s 2" % name]
+            files[top].append('#include "mols_list.itp"')
+        else:
+            # (2) the molecule type is defined in the including file (collected, not yet read) BEFORE the include
+            # that holds the section: KeyError
+            del files[top][files[top].index("[ molecules ]"):]
+            files[top][idx:idx] = mol
+            files[(d + "/" if d else "") + "mols_list.itp"] = ["[ molecules ]", "POSMOL 2"]
+            files[top].append('#include "mols_list.itp"')
+            case["molecules"] = [["POSMOL", 2]]
     elif shape == "define-inside-conditional":
         files[top][0:0] = ["#ifdef NEVER_DEFINED_TAG", "#define HIDDEN_TAG", "#endif", "#ifdef HIDDEN_TAG",
                            "#error HIDDEN_TAG must not be defined", "#endif"]
@@ -454,6 +641,27 @@ def dump_molecule(mol):
     return dict(nodes=nodes, interactions=inters, edges=edges, nrexcl=canon_val(getattr(mol, "nrexcl", None)))
 
 
+def graph_edges(graph):
+    return sorted(sorted([canon_val(u), canon_val(v)], key=str) for u, v in graph.edges)
+
+
+def dump_instances(topology):
+    """for every molecule instance (in list order): its name, the edges of its atom graph and its residue graph
+    (nodes: key, resid, resname, the atoms the residue holds; edges) — "each instance an independent copy of its
+    molecule type" is about these too, not only about names and counts"""
+    out = []
+    for meta in topology.molecules:
+        res_nodes = []
+        for key in meta.nodes:
+            data = meta.nodes[key]
+            sub = data.get("graph")
+            res_nodes.append([canon_val(key), canon_val(data.get("resid")), canon_val(data.get("resname")),
+                              None if sub is None else sorted((canon_val(n) for n in sub.nodes), key=str)])
+        out.append(dict(name=meta.mol_name, natoms=len(meta.molecule.nodes), atom_edges=graph_edges(meta.molecule),
+                        res_nodes=sorted(res_nodes, key=str), res_edges=graph_edges(meta)))
+    return out
+
+
 def canon_line(text):
     if text.startswith("["):
         return ["[", text.strip("[ ]").casefold()]
@@ -480,15 +688,63 @@ def dump_topology(topology, groups):
         blocks=sorted([[str(name), dump_molecule(block)] for name, block in topology.force_field.blocks.items()],
                       key=lambda item: item[0]),
         molecules=[m.mol_name for m in topology.molecules],
+        instances=dump_instances(topology),
         mol_idx=sorted([str(k), [int(i) for i in v]] for k, v in topology.mol_idx_by_name.items() if v),
     )
 
 
-def read_real(files, top, chdir=False, keep=False):
-    """write the tree, read it with the real reader.  Returns (dump | None, error name | None, topology | None)"""
+def write_tree(root, files):
+    for path, lines in files.items():
+        full = os.path.join(root, path)
+        os.makedirs(os.path.dirname(full), exist_ok=True)
+        with open(full, "w") as handle:
+            handle.write("".join(line + "\n" for line in lines))
+
+
+def make_decoy_library(files, top):
+    """a GROMACS-style library directory (what $GMXLIB / $GMXDATA/top point at) in a fresh temporary directory: a file
+    with DIFFERENT content (DECOY_LINES) under the name of every file of the tree (relative to the root and relative
+    to the directory of the top file), under every include path as written and under its base name.  Returns
+    (directory to remove afterwards, library directory)."""
+    libroot = os.path.realpath(tempfile.mkdtemp(prefix="c08lib_"))
+    lib = os.path.join(libroot, "x", "y", "z", "share", "gromacs", "top")
+    os.makedirs(lib)
+    topdir = os.path.dirname(top)
+    names = set()
+    for path, lines in files.items():
+        names.add(path)
+        names.add(os.path.relpath(path, topdir or "."))
+        names.add(os.path.basename(path))
+        for written in include_paths(lines):
+            names.add(written)
+            names.add(os.path.basename(written))
+    decoys = {}
+    for name in names:
+        full = os.path.normpath(os.path.join(lib, name))
+        if full.startswith(libroot + os.sep) and not os.path.isabs(name):
+            decoys[os.path.relpath(full, libroot)] = list(DECOY_LINES)
+    write_tree(libroot, decoys)
+    return libroot, lib
+
+
+ADDRESSES = ["abs", "bare", "rel", "up"]
+
+
+def read_real(files, top, chdir=False, keep=False, address=None, env=False, before=()):
+    """write the tree, read it with the real reader.  Returns (dump | None, error name | None, topology | None).
+
+    `address`: how the top file is named in the call — "abs" (absolute path), "bare" (process cwd = its directory, bare
+    file name: `os.path.dirname` gives ''), "rel" (cwd = root of the tree, relative path), "up" (cwd = a sub directory
+    of its directory, '../name'); default: "bare" if `chdir` else "abs".
+    `env`: the ENVIRONMENT of a GROMACS user — $GMXLIB and $GMXDATA point at a library that holds same-named files with
+    different content, and (address "abs") the process cwd is that library directory, i.e. a directory with decoys of
+    the same names.  None of this may change what is read ("resolved relative to the including file").
+    `before`: trees (files, top) that are written to the SAME directory and read first, in this process (history);
+    the directory is emptied in between.  cwd and environment are restored afterwards."""
     import polyply.src.top_parser as top_parser
     from polyply.src.topology import Topology
-    root = tempfile.mkdtemp(prefix="c08_")
+    address = address or ("bare" if chdir else "abs")
+    root = os.path.realpath(tempfile.mkdtemp(prefix="c08_"))
     groups = []
     original = top_parser.read_itp
 
@@ -496,19 +752,43 @@ def read_real(files, top, chdir=False, keep=False):
         groups.append(list(lines))
         return original(lines, force_field)
     cwd = os.getcwd()
+    saved_env = {key: os.environ.get(key) for key in ("GMXLIB", "GMXDATA")}
+    libroot = None
+
+    def call(the_top):
+        topdir = os.path.join(root, os.path.dirname(the_top))
+        if address == "bare":
+            os.chdir(topdir)
+            return Topology.from_gmx_topfile(os.path.basename(the_top), "verif")
+        if address == "rel":
+            os.chdir(root)
+            return Topology.from_gmx_topfile(the_top, "verif")
+        if address == "up":
+            sub = os.path.join(topdir, "c08_cwd_below_top")
+            os.makedirs(sub, exist_ok=True)
+            os.chdir(sub)
+            return Topology.from_gmx_topfile(os.path.join("..", os.path.basename(the_top)), "verif")
+        return Topology.from_gmx_topfile(os.path.join(root, the_top), "verif")
     try:
-        for path, lines in files.items():
-            full = os.path.join(root, path)
-            os.makedirs(os.path.dirname(full), exist_ok=True)
-            with open(full, "w") as handle:
-                handle.write("".join(line + "\n" for line in lines))
+        if env:
+            libroot, lib = make_decoy_library(files, top)
+            os.environ["GMXLIB"] = lib
+            os.environ["GMXDATA"] = os.path.dirname(lib)
+            os.chdir(lib)
         top_parser.read_itp = recording
+        for old_files, old_top in before:
+            write_tree(root, old_files)
+            try:
+                call(old_top)
+            except (Exception, RecursionError):  # pylint: disable=broad-except
+                pass
+            os.chdir(lib if env else cwd)
+            shutil.rmtree(root, ignore_errors=True)
+            os.makedirs(root)
+            del groups[:]
+        write_tree(root, files)
         try:
-            if chdir:
-                os.chdir(os.path.join(root, os.path.dirname(top)))
-                topology = Topology.from_gmx_topfile(os.path.basename(top), "verif")
-            else:
-                topology = Topology.from_gmx_topfile(os.path.join(root, top), "verif")
+            topology = call(top)
         except RecursionError:
             return None, "RecursionError", None
         except Exception as exc:  # pylint: disable=broad-except
@@ -517,7 +797,14 @@ def read_real(files, top, chdir=False, keep=False):
     finally:
         top_parser.read_itp = original
         os.chdir(cwd)
+        for key, val in saved_env.items():
+            if val is None:
+                os.environ.pop(key, None)
+            else:
+                os.environ[key] = val
         shutil.rmtree(root, ignore_errors=True)
+        if libroot:
+            shutil.rmtree(libroot, ignore_errors=True)
 
 
 def read_units(units):
@@ -570,8 +857,9 @@ def canon_model(top):
     )
 
 
-def observable(dump, with_meta=True, with_groups=True, with_blocks=False):
-    """the part of a real dump that a given comparison looks at"""
+def observable(dump, with_meta=True, with_groups=True, with_blocks=False, with_instances=False):
+    """the part of a real dump that a given comparison looks at (the Lean model has no notion of graph edges: the
+    blocks and the instances are compared between REAL reads only)"""
     out = {k: dump[k] for k in ("defaults", "defines", "atomtypes", "nonbond", "molecules", "mol_idx")}
     if with_meta:
         out["types"] = dump["types"]
@@ -581,6 +869,8 @@ def observable(dump, with_meta=True, with_groups=True, with_blocks=False):
         out["groups"] = dump["groups"]
     if with_blocks:
         out["blocks"] = dump["blocks"]
+    if with_instances:
+        out["instances"] = dump["instances"]
     return out
 
 
@@ -692,7 +982,9 @@ def judge_tree(ctx, item, answers):
                          result=("rejected: " + str(err)) if dump is None else dict(molecules=dump["molecules"])),
              files=min(nfiles, 8), outcome="ok" if dump is not None else "reject", malformed=case.get("malformed"),
              shape=shape_tag, chdir=case.get("chdir", False), agree=agree,
-             topdir=os.path.dirname(case["top"]) or ".")
+             topdir=os.path.dirname(case["top"]) or ".",
+             molecules_section=(case.get("extra") or {}).get("layout") or "top-file",
+             **{"extra_" + k: (v if k == "deep" else bool(v)) for k, v in (case.get("extra") or {}).items() if k != "layout"})
     return follow
 
 
@@ -723,8 +1015,8 @@ def judge_flat(ctx, item, flat, model_single, expand):
                         % ("ok" if dump is not None else "raised " + str(err), "ok" if fdump is not None else "raised " + str(ferr)),
                         replay)
     elif dump is not None:
-        left = observable(dump, with_meta=False, with_groups=False, with_blocks=True)
-        right = observable(fdump, with_meta=False, with_groups=False, with_blocks=True)
+        left = observable(dump, with_meta=False, with_groups=False, with_blocks=True, with_instances=True)
+        right = observable(fdump, with_meta=False, with_groups=False, with_blocks=True, with_instances=True)
         if left != right:
             diff = [k for k in left if left[k] != right[k]]
             ctx.oracle_fail(shape_tag or ("flatten-differs-" + diff[0]), "reading the tree and reading the flattened file "
@@ -749,9 +1041,72 @@ def judge_noise(ctx, item, seed):
     if (dump is None) != (ndump is None):
         ctx.oracle_fail("whitespace-changes-acceptance", "adding comments/blank lines/whitespace turns %s into %s"
                         % ("ok" if dump is not None else "reject", "ok" if ndump is not None else "raised " + str(nerr)), replay)
-    elif dump is not None and observable(dump, with_blocks=True) != observable(ndump, with_blocks=True):
+    elif dump is not None and observable(dump, with_blocks=True, with_instances=True) != \
+            observable(ndump, with_blocks=True, with_instances=True):
         ctx.oracle_fail("whitespace-changes-result", "adding comments/blank lines/whitespace changes the topology", replay)
     ctx.tally(whitespace_checked=True)
+
+
+def derived_rng(label, case):
+    """a PRNG that depends only on the case (not on ctx.rng: the other cases of a seed stay what they are)"""
+    import random
+    import zlib
+    return random.Random("%s|%d" % (label, zlib.crc32(json.dumps([case["files"], case["top"]], sort_keys=True).encode())))
+
+
+def judge_environment(ctx, item):
+    """the ENVIRONMENT dimension: the same tree, named in another way (bare file name from its directory, relative
+    path, '../name', absolute path from a directory full of same-named decoys) while $GMXLIB / $GMXDATA point at a
+    library of same-named files with different content.  "#include (resolved relative to the including file)": the
+    result must be the one of the plain read (which the other oracles compare with the flattened file)."""
+    case, dump, err = item["case"], item["dump"], item["err"]
+    rng = derived_rng("c08-env", case)
+    address = rng.choice(["bare", "bare", "bare", "abs", "rel", "up"])
+    edump, eerr, _ = read_real(case["files"], case["top"], address=address, env=True)
+    replay = dict(kind="tree", case=case, environment=dict(address=address, GMXLIB="a library with same-named files",
+                                                           cwd="that library" if address == "abs" else "see address"))
+    if (dump is None) != (edump is None):
+        ctx.oracle_fail("environment-changes-acceptance", "the tree read plainly: %s; read as %r with GMXLIB/GMXDATA pointing at a "
+                        "library of same-named files: %s" % ("ok" if dump is not None else "raised " + str(err), address,
+                                                             "ok" if edump is not None else "raised " + str(eerr)), replay)
+    elif dump is not None and edump != dump:
+        diff = [k for k in dump if dump[k] != edump[k]]
+        ctx.oracle_fail("environment-changes-result", "reading the tree as %r with GMXLIB/GMXDATA pointing at a library of same-named "
+                        "files (and a cwd with such files) differs from the plain read in %s: %s vs %s"
+                        % (address, diff, json.dumps(edump[diff[0]])[:300], json.dumps(dump[diff[0]])[:300]), replay)
+    ctx.tally(environment_checked=True, **{"environment_address_" + address: True})
+
+
+HISTORY_MOL = ["[ moleculetype ]", "HISTMOL 1", "[ atoms ]", "1 CT 1 HIS A1 1 0.0 12.0", "2 CT 2 HIS A2 2 0.0 12.0",
+               "[ bonds ]", "1 2 1 0.1 1000"]
+
+
+def judge_history(ctx, item):
+    """process history: in the SAME directory (same absolute paths) and the same process first a variant of the tree
+    with other content (an extra #define in every file, an extra moleculetype, other molecule counts) is read, then
+    a variant whose reading FAILS at the very end (unclosed conditional in the top file), then the tree itself: the
+    later result must be the one of the first, fresh read — no defines / blocks / cached files of an earlier call"""
+    case, dump, err = item["case"], item["dump"], item["err"]
+    files, top = case["files"], case["top"]
+    variant = {path: ["#define HIST_%d 1 2" % i] + list(lines) for i, (path, lines) in enumerate(sorted(files.items()))}
+    if "[ system ]" in variant[top]:
+        idx = variant[top].index("[ system ]")
+        variant[top][idx:idx] = HISTORY_MOL
+        variant[top].append("HISTMOL 3")
+    broken = {path: list(lines) for path, lines in variant.items()}
+    broken[top].insert(0, "#ifdef FLEXIBLE")
+    ldump, lerr, _ = read_real(files, top, chdir=case.get("chdir", False), before=[(variant, top), (broken, top)])
+    replay = dict(kind="tree", case=case, history=["variant with extra defines/moleculetype", "failing variant", "the tree"])
+    if (dump is None) != (ldump is None):
+        ctx.oracle_fail("history-changes-acceptance", "fresh read: %s; the same read after two other reads in this process: %s"
+                        % ("ok" if dump is not None else "raised " + str(err), "ok" if ldump is not None else "raised " + str(lerr)),
+                        replay)
+    elif dump is not None and ldump != dump:
+        diff = [k for k in dump if dump[k] != ldump[k]]
+        ctx.oracle_fail("history-changes-result", "the tree read after a different tree and a failed read (same directory, same "
+                        "process) differs from its fresh read in %s: %s vs %s"
+                        % (diff, json.dumps(ldump[diff[0]])[:300], json.dumps(dump[diff[0]])[:300]), replay)
+    ctx.tally(history_checked=True)
 
 
 DISPATCH_ALPHABET = ["a", "#", "*", "[", "]", ";", " ", "\t"]      # one character of every class the lexer distinguishes
@@ -875,6 +1230,12 @@ def run_cases(ctx, cases, noise=True):
         for k, item in enumerate(items):
             if item["case"]["valid"] and k % 2 == 0 and not item["case"].get("shape"):
                 judge_noise(ctx, item, ctx.rng.randint(0, 10 ** 9))
+    for k, item in enumerate(items):
+        extra = bool(item["case"].get("extra"))
+        if k % 3 == 1 or (extra and k % 3 == 0):
+            judge_environment(ctx, item)
+        if item["case"]["valid"] and k % 20 == (3 if not extra else 5):
+            judge_history(ctx, item)
 
 
 MALFORMED = ["missing-file", "missing-file-inactive", "unclosed-conditional", "stray-endif", "stray-else",
@@ -919,6 +1280,16 @@ def run(ctx):
         for shape in FINDING_SHAPES:
             for _ in range(ctx.budget(2, 10)):
                 cases.append(gen_tree(rng, shape=shape))
+    # extra stream: the input dimensions of notes/EXTENSION_BRIEF.md (appendix) that C08 can see.  All choices come from
+    # a DERIVED generator, so the cases above are what they were for this seed.
+    import random
+    state = rng.getstate()[1][:4]
+    for i in range(ctx.budget(100, 1000)):
+        erng = random.Random("c08-extra|%d|%r" % (i, state))
+        opts = dict(rich=erng.random() < 0.75, sysinc=(i % 2 == 0) or erng.random() < 0.2, bigcount=erng.random() < 0.25,
+                    deep=erng.choice([0, 0, 0, 6, 9, 12]), decoys=erng.random() < 0.5)
+        malformed = erng.choice(MALFORMED) if erng.random() < 0.08 else None
+        cases.append(gen_tree(erng, malformed=malformed, opts=opts))
     chunk = 150
     for start in range(0, len(cases), chunk):
         run_cases(ctx, cases[start:start + chunk])
